@@ -6,7 +6,9 @@ import (
 	"encoding/binary"
 	"errors"
 	"fmt"
+	"os"
 	"sort"
+	"time"
 	"strings"
 
 	"github.com/NethermindEth/juno/blockchain/statebackend"
@@ -368,7 +370,12 @@ func (t *trace) compare(r *runner, sc *Scenario, extra map[string]any) {
 	}
 	defer r.release(drv)
 	lines, want := t.script()
+	if d := os.Getenv("C05_DUMP"); d != "" {
+		_ = os.WriteFile(fmt.Sprintf("%s/script-%d-%v.txt", d, len(lines), extra["k"]), []byte(strings.Join(lines, "\n")+"\n"), 0o644)
+	}
+	t0 := time.Now()
 	got, err := drv.AskAll(lines)
+	r.res.HitN("driver-ms", int(time.Since(t0).Milliseconds()))
 	if err != nil {
 		r.res.Note("driver: %v", err)
 		return
